@@ -59,12 +59,12 @@ pub fn apply_op<T: Subj>(s: &mut T, st: &Step, r: &Res) -> String {
             String::new()
         }
         Kind::Extend => {
-            let it = SimIter::new(&r.items, st.form % 8, st.b, !st.bit, r.panic_after);
+            let it = SimIter::new(&r.items, st.form % 9, st.b, !st.bit, r.panic_after);
             s.extend(it);
             String::new()
         }
         Kind::Collect => {
-            let it = SimIter::new(&r.items, st.form % 8, st.b, !st.bit, r.panic_after);
+            let it = SimIter::new(&r.items, st.form % 9, st.b, !st.bit, r.panic_after);
             *s = T::from_iter(it);
             String::new()
         }
@@ -366,7 +366,11 @@ impl<'t> Exec<'t> {
         let mut r = Res::default();
         // how far beyond the limit an overflowing step may reach
         let over = |raw: u64| -> usize {
-            if st.ovf && fixed {
+            if st.ovf && fixed && st.b == u64::MAX {
+                // lengths at the very top of usize: capacity arithmetic must not wrap (fixed types only:
+                // a growable type would try to allocate)
+                usize::MAX - (raw as usize) % 200
+            } else if st.ovf && fixed {
                 (raw as usize) % (ml + 140)
             } else {
                 (raw as usize) % (ml + 1)
@@ -406,9 +410,13 @@ impl<'t> Exec<'t> {
             }
             Kind::Resize => {
                 r.x = over(st.a);
-                let mut e = m.clone();
-                model::resize(&mut e, r.x, st.bit);
-                r.expect = Some(e);
+                if r.x > MAXLEN_GROW + 4096 {
+                    r.want_len = Some(r.x); // far beyond any capacity: no model list is built
+                } else {
+                    let mut e = m.clone();
+                    model::resize(&mut e, r.x, st.bit);
+                    r.expect = Some(e);
+                }
             }
             Kind::Truncate => {
                 r.x = (st.a as usize) % (n + 3);
@@ -418,9 +426,13 @@ impl<'t> Exec<'t> {
             }
             Kind::SignExtend => {
                 r.x = over(st.a);
-                let mut e = m.clone();
-                model::sign_extend(&mut e, r.x);
-                r.expect = Some(e);
+                if r.x > MAXLEN_GROW + 4096 {
+                    r.want_len = Some(r.x);
+                } else {
+                    let mut e = m.clone();
+                    model::sign_extend(&mut e, r.x);
+                    r.expect = Some(e);
+                }
             }
             Kind::Append | Kind::Prepend | Kind::Insert => {
                 let (mut o, mut ob) = match self.operand(st) {
@@ -477,7 +489,7 @@ impl<'t> Exec<'t> {
                     items.truncate(rm);
                 }
                 r.panic_after = if st.a == 0 { None } else { Some(((st.a - 1) as usize) % (items.len() + 1)) };
-                if st.form % 8 == 5 {
+                if st.form % 9 == 5 || st.form % 9 == 8 {
                     // an iterator that lies about its lower bound breaks its own contract: invariants only
                     r.want_len = Some(base + items.len());
                 } else if r.panic_after.is_none() {
@@ -496,7 +508,11 @@ impl<'t> Exec<'t> {
                     Kind::Ones => true,
                     _ => st.bit,
                 };
-                r.expect = Some(vec![fill; r.x]);
+                if r.x > MAXLEN_GROW + 4096 {
+                    r.want_len = Some(r.x);
+                } else {
+                    r.expect = Some(vec![fill; r.x]);
+                }
             }
             Kind::WithCapacity => {
                 r.x = (st.a as usize) % 1200;
